@@ -194,6 +194,80 @@ type AuthStep struct {
 	Allow  []string   `json:"allow"`  // `!{ path_beg X }`: requests whose path begins with X (characters) are exempt ([] = none)
 	Other  string     `json:"other"`  // any other condition (not interpreted: the rule is then not counted as a guard)
 	Raw    string     `json:"raw"`
+	// intercept: what the call reaches -- the name given to lua.auth-intercept followed through the auth proxy
+	// (backend _auth_<port> -> server 127.0.0.1:<port> -> bind of the auth frontend -> use_backend <target>), then the
+	// servers of that target ("10.0.0.9:8000", ...); "" when the chain breaks somewhere
+	Target  string   `json:"target"`
+	Servers []string `json:"servers"`
+}
+
+var (
+	reInterceptName = regexp.MustCompile(`^http-request lua\.auth-intercept (\S+) `)
+	reBindID        = regexp.MustCompile(`^bind 127\.0\.0\.1:(\d+)(?: id (\d+))?`)
+	reUsePlain      = regexp.MustCompile(`^use_backend (\S+)$`)
+	reUseSoID       = regexp.MustCompile(`^use_backend (\S+) if \{ so_id (\d+) \}`)
+	reSrvAddr       = regexp.MustCompile(`^server \S+ (\S+)`)
+)
+
+// ResolveAuthTargets fills Target / Servers of the intercept steps.
+func (r *Raw) ResolveAuthTargets(steps []AuthStep) {
+	lines := func(kind, name string) []string {
+		for _, s := range r.Sections {
+			if s.Kind == kind && s.Name == name {
+				return s.Lines
+			}
+		}
+		return nil
+	}
+	for i := range steps {
+		steps[i].Servers = []string{}
+		m := reInterceptName.FindStringSubmatch(steps[i].Raw)
+		if steps[i].Kind != "intercept" || m == nil {
+			continue
+		}
+		name := m[1]
+		if strings.HasPrefix(name, "_auth_") && !strings.HasPrefix(name, "_auth_backend") {
+			// through the auth proxy
+			port := ""
+			for _, l := range lines("backend", name) {
+				if sm := reSrvAddr.FindStringSubmatch(l); sm != nil && strings.HasPrefix(sm[1], "127.0.0.1:") {
+					port = strings.TrimPrefix(sm[1], "127.0.0.1:")
+				}
+			}
+			id, target := "", ""
+			for _, sec := range r.Sections {
+				if sec.Kind != "frontend" && sec.Kind != "listen" {
+					continue
+				}
+				found := false
+				for _, l := range sec.Lines {
+					if bm := reBindID.FindStringSubmatch(l); bm != nil && bm[1] == port && port != "" {
+						found, id = true, bm[2]
+					}
+				}
+				if !found {
+					continue
+				}
+				for _, l := range sec.Lines {
+					if um := reUseSoID.FindStringSubmatch(l); um != nil && id != "" && um[2] == id {
+						target = um[1]
+					}
+					// a single bind: one unconditional use_backend
+					if um := reUsePlain.FindStringSubmatch(l); um != nil && id == "" {
+						target = um[1]
+					}
+				}
+				break
+			}
+			name = target
+		}
+		steps[i].Target = name
+		for _, l := range lines("backend", name) {
+			if sm := reSrvAddr.FindStringSubmatch(l); sm != nil && !strings.Contains(l, " disabled") {
+				steps[i].Servers = append(steps[i].Servers, sm[1])
+			}
+		}
+	}
 }
 
 // BackendNF is what decides, inside a backend, which path a request belongs to and whether it is guarded.
@@ -261,6 +335,7 @@ func (r *Raw) AuthSteps(kind, name string) []AuthStep {
 		}
 		for _, l := range s.Lines {
 			if a := parseAuth(l); a != nil {
+				a.Servers = []string{}
 				res = append(res, *a)
 			}
 		}
